@@ -190,6 +190,20 @@ def check_bm_cast(ctx, k):
     ctx.expect(paths, ret=1)
 
 
+def check_bm_arith1(ctx, k, nbits):
+    size = 1 << 32
+    b0 = ctx.sandbox_base(32, "b0", aligned=False)
+    p = ctx.sym("p", 64)
+    ctx.assume(ctx.in_region(p, b0, size))
+    n = ctx.sym("n", nbits)
+    paths = ctx.run(k, [b0, p, n])
+    for q in paths:
+        if q.status == "ret":
+            ctx.require(q, z3.Or(q.ret == 0, ctx.in_region(q.ret, b0, size)), "pointer arithmetic / indexing yields a pointer inside the sandbox or aborts")
+    ctx.only(paths, "ret", "abort")
+    ctx.expect(paths, ret=1, abort=1)
+
+
 def check_bm_cell(ctx, k):
     size = 1 << 32
     b0 = ctx.sandbox_base(32, "b0", aligned=False)
@@ -229,6 +243,8 @@ def jobs(tier, seed):
     ssrc = '#include "verif_sandbox.hpp"\nusing S = B32S;\n#include "C03_small.inc"\n'
     out.append(Job("C03_B32S", ssrc, [dict(name="B32S " + k, fn=check_small, kw=dict(k=k)) for k in ("k_small_malloc_int", "k_small_malloc_vs24", "k_small_accept", "k_small_assign")],
                    native=False))
+    out.append(Job("C03_BM_arith", '#include "C03_bm.inc"\n', [dict(name="BM k_bm_add1", fn=check_bm_arith1, kw=dict(k="k_bm_add1", nbits=64)),
+                                                                 dict(name="BM k_bm_idx1", fn=check_bm_arith1, kw=dict(k="k_bm_idx1", nbits=32))], native=False))
     from specs import C07
     out.append(Job("C03_BM_nested", '#include "C07_bm2.inc"\n', [dict(name="BM pointer field of a struct nested by value: " + k, fn=C07.check_bm2, kw=dict(k=k)) for k in ("k_bm_load_nested",)], native=False))
     for k in ("k_bm_load_fnptrptr", "k_bm_cast_fnptrptr"):
